@@ -1,4 +1,6 @@
 import SpowtdModel.Lemmas.GS
+import SpowtdModel.Lemmas.GSInv
+import SpowtdModel.Lemmas.GSOpt
 /-
   C02 — the storm–rise matching is stable and storm-optimal, whatever the order
   in which storms are taken from the pool.  Property theorems only; helper
@@ -10,27 +12,33 @@ namespace Spowtd.GS
 def muOf (P : Problem) (st : State) : Nat → Option Nat :=
   fun s => P.rises.find? (fun r => st.held r == some s)
 
+/-- `muOf` is the inverse of `held` on reachable states. -/
+theorem muOf_iff (P : Problem) (hP : WF P) {st : State} (h : Reach P st) (s r : Nat) :
+    muOf P st s = some r ↔ st.held r = some s :=
+  invHeld_iff hP (inv_reach hP h) s r
+
 /-- Every run of the executable loop, under any schedule, is a `Reach` sequence. -/
 theorem run_reach (P : Problem) (pick : List Nat → Nat) (n : Nat) (st : State) (h : Reach P st) :
-    Reach P (run P pick n st) := by
-  sorry
+    Reach P (run P pick n st) :=
+  run_reach' P pick n st h
 
 /-- The loop empties the pool within `fuel P` iterations (termination is a theorem, not fuel). -/
 theorem run_terminates (P : Problem) (hP : WF P) (pick : List Nat → Nat) :
-    (run P pick (fuel P) (init P)).free = [] := by
-  sorry
+    (run P pick (fuel P) (init P)).free = [] :=
+  run_terminates' hP pick
 
 /-- In every reachable state the held pairs are candidate pairs and no storm is held twice
     (no rise is held twice by construction: `held` is a function). -/
 theorem gs_matching (P : Problem) (hP : WF P) {st : State} (h : Reach P st) :
     (∀ r s, st.held r = some s → s ∈ P.storms ∧ r ∈ P.prefs s) ∧
-    (∀ r r' s, st.held r = some s → st.held r' = some s → r = r') := by
-  sorry
+    (∀ r r' s, st.held r = some s → st.held r' = some s → r = r') :=
+  ⟨fun _ _ hh => held_mem_prefs (inv_reach hP h) hh,
+   fun _ _ _ hh hh' => held_inj (inv_reach hP h) hh hh'⟩
 
 /-- A final state is a stable matching (ties allowed on both sides). -/
 theorem gs_stable (P : Problem) (hP : WF P) {st : State} (h : Reach P st) (hfin : st.free = []) :
-    Stable P (muOf P st) := by
-  sorry
+    Stable P (muOf P st) :=
+  stable_of_final hP (inv_reach hP h) hfin (muOf P st) (muOf_iff P hP h)
 
 /-- Stability in terms of the *scores* a user can compute: if the preference lists are sorted by
     a storm score `σ`, no candidate pair exists in which the storm would get a strictly higher
@@ -41,23 +49,87 @@ theorem gs_stable_scores (P : Problem) (hP : WF P) (σ : Nat → Nat → Int)
     ¬ ∃ s r, s ∈ P.storms ∧ r ∈ P.prefs s ∧ muOf P st s ≠ some r ∧
       (muOf P st s = none ∨ ∃ r', muOf P st s = some r' ∧ σ s r' < σ s r) ∧
       ((∀ s', muOf P st s' ≠ some r) ∨ ∃ s', muOf P st s' = some r ∧ P.score r s' < P.score r s) := by
-  sorry
+  rintro ⟨s, r, hs, hr, hne, hstorm, hrise⟩
+  have hst := gs_stable P hP h hfin
+  refine hst.2 s r ⟨hs, hr, hne, ?_, hrise⟩
+  rcases hstorm with hnone | ⟨r', hr', hlt⟩
+  · exact Or.inl hnone
+  · refine Or.inr ⟨r', hr', ?_⟩
+    have hr'mem : r' ∈ P.prefs s := (hst.1.sub s r' hr').2
+    have hrr' : r ≠ r' := fun e => hne (e ▸ hr')
+    rcases before_total hr hr'mem hrr' with hb | hb
+    · exact hb
+    · have := hσ s r' r hb
+      omega
 
 /-- With strict rise preferences the result is the storm-optimal stable matching: every storm
     matched in *any* stable matching is matched here, to a rise it lists at least as early. -/
 theorem gs_storm_optimal (P : Problem) (hP : WF P) (hs : RiseStrict P)
     {st : State} (h : Reach P st) (hfin : st.free = [])
     (μ' : Nat → Option Nat) (hst : Stable P μ') (s r' : Nat) (h' : μ' s = some r') :
-    ∃ r, st.held r = some s ∧ (r = r' ∨ Before (P.prefs s) r r') := by
-  sorry
+    ∃ r, st.held r = some s ∧ (r = r' ∨ Before (P.prefs s) r r') :=
+  storm_optimal (inv_reach hP h) (noAchRej_reach hP hs h) hfin μ' hst s r' h'
 
 /-- … hence the result does not depend on the order in which storms are considered. -/
 theorem gs_order_independent (P : Problem) (hP : WF P) (hs : RiseStrict P)
-    (pick₁ pick₂ : List Nat → Nat) : galeShapley P pick₁ = galeShapley P pick₂ := by
-  sorry
+    (pick₁ pick₂ : List Nat → Nat) : galeShapley P pick₁ = galeShapley P pick₂ :=
+  galeShapley_order_independent hP hs pick₁ pick₂
 
 /-- The Boolean test used on the implementation's output decides strictness. -/
-theorem riseStrictB_iff (P : Problem) (hP : WF P) : riseStrictB P = true ↔ RiseStrict P := by
-  sorry
+theorem riseStrictB_iff (P : Problem) (hP : WF P) : riseStrictB P = true ↔ RiseStrict P :=
+  riseStrictB_iff' hP
+
+/-! ### Non-vacuity
+
+Storms 1 and 2 contend for rise 10 (rise 10 scores storm 2 higher); storm 1 chooses between
+rises 10 and 20 (it lists 10 first).  Storm 2 gets rise 10, storm 1 falls back on rise 20,
+whichever storm is taken from the pool first. -/
+
+def exampleProblem : Problem where
+  storms := [1, 2]
+  rises := [10, 20]
+  prefs := fun s => if s = 1 then [10, 20] else if s = 2 then [10] else []
+  score := fun r s => if r = 10 ∧ s = 2 then 7 else if r = 10 ∧ s = 1 then 5 else 1
+
+theorem exampleProblem_wf : WF exampleProblem where
+  storms_nodup := by decide
+  rises_nodup := by decide
+  prefs_nodup := by
+    intro s
+    show (if s = 1 then [10, 20] else if s = 2 then [10] else []).Nodup
+    split
+    · decide
+    · split <;> decide
+  prefs_rises := by
+    intro s r hr
+    have hr' : r ∈ (if s = 1 then [10, 20] else if s = 2 then [10] else []) := hr
+    show r ∈ [10, 20]
+    split at hr'
+    · exact hr'
+    · split at hr'
+      · simp at hr'; simp [hr']
+      · cases hr'
+
+theorem exampleProblem_strict : RiseStrict exampleProblem :=
+  (riseStrictB_iff exampleProblem exampleProblem_wf).mp (by decide)
+
+/-- first storm of the pool taken first -/
+example : galeShapley exampleProblem (fun _ => 0) = [(10, 2), (20, 1)] := by decide
+
+/-- last storm of the pool taken first -/
+example : galeShapley exampleProblem (fun l => l.length - 1) = [(10, 2), (20, 1)] := by decide
+
+/-- the two schedules really differ: they take different storms first -/
+example : choose (fun _ => 0) (init exampleProblem).free = 1 ∧
+    choose (fun l => l.length - 1) (init exampleProblem).free = 2 := by decide
+
+/-- the hypotheses of the theorems above are jointly satisfiable on a final state with a contested
+    rise, and the conclusion of `gs_stable` is about a non-empty matching -/
+example : Stable exampleProblem
+    (muOf exampleProblem (run exampleProblem (fun _ => 0) (fuel exampleProblem) (init exampleProblem))) ∧
+    muOf exampleProblem (run exampleProblem (fun _ => 0) (fuel exampleProblem) (init exampleProblem)) 1
+      = some 20 :=
+  ⟨gs_stable _ exampleProblem_wf (run_reach _ _ _ _ Reach.init) (run_terminates _ exampleProblem_wf _),
+   by decide⟩
 
 end Spowtd.GS
